@@ -141,7 +141,7 @@ func (s *Series) Min() (float64, error) {
 
 	min := nums[0]
 	for _, v := range nums[1:] {
-		if v < min {
+		if v < min || math.IsNaN(min) {
 			min = v
 		}
 	}
